@@ -10,7 +10,7 @@ import vlib
 from vlib import Check, Broken, log
 from checks import krig_common as kc
 
-TOL = {"lhs_diff": 1e-10, "rhs_diff": 1e-10, "residual": 1e-9, "estim_diff": 1e-9, "stdev_var_diff": 1e-9, "c00_diff": 1e-12}
+TOL = {"cvv_diff": 1e-10, "lhs_diff": 1e-10, "rhs_diff": 1e-10, "residual": 1e-9, "estim_diff": 1e-9, "stdev_var_diff": 1e-9, "c00_diff": 1e-12}
 
 
 def run(tier):
@@ -33,6 +33,11 @@ def run(tier):
                     if c["cfg"]["target"] == "point" and c["cfg"]["ndim"] >= 2 and im == (tg + 1) % 3:
                         cases.append({"cfg": c["cfg"], "sys": c["sys"], "run": {"mode": "system", "neigh": nk, "model": im, "target": tg,
                                                                               "perm": 0, "tgrid": True}})
+        # block support defined per target cell (krigcell / flagPerCell): second cell with its own extension
+        if c["cfg"]["target"] == "block":
+            for nk in ("unique", "moving"):
+                for tg in (0, 1):
+                    cases.append({"cfg": c["cfg"], "sys": c["sys"], "run": {"mode": "system", "neigh": nk, "model": (tg + 1) % 3, "target": tg, "perm": 0, "percell": True}})
         # a target lying exactly on a datum (the discontinuous structures contribute to the right-hand side there)
         if c["cfg"]["target"] == "point":
             for nk in ("unique", "moving"):
@@ -97,6 +102,9 @@ def run(tier):
         for tg in ("point", "block"):
             if not any(k[0] == d and k[2] == tg for k in cat):
                 raise Broken("vacuous: no case for drift %s target %s" % (d, tg))
+    if not any(cs["run"].get("percell") for cs in cases):
+        raise Broken("vacuous: no per-cell block case")
+    ck.cov["per_cell_block_runs"] = sum(1 for cs in cases if cs["run"].get("percell"))
     if ncluster == 0:
         raise Broken("vacuous: no two-cluster case")
     ck.cov["two_cluster_runs"] = ncluster
